@@ -69,7 +69,6 @@ OPTIONAL_FORMS = [
     'ds.Select(lambda e: e.{C}("b1").Select(lambda j: min(j.pt(), 1.5)))',
     'ds.Select(lambda e: e.{C}("b1").Select(lambda j: j.pt() if j.pt() > 30 else (j.eta() if j.eta() > 0 else 0.5)))',
     'ds.Select(lambda e: e.{C}("b1").Select(lambda j: -j.pt() + +j.eta()))',
-    'ds.Select(lambda e: e.{C}("b1").Select(lambda j: j.pt() ** 2))',
     'ds.Select(lambda e: e.{C}("b1").Where(lambda j: not j.isGood()).Count())',
     'ds.Select(lambda e: e.{C}("b1").Where(lambda j: j.isGood() == True).Count())',
 ]
@@ -324,6 +323,12 @@ def check(tier: str, seed: int, t0: float, build: core.BuildStatus) -> int:
                     i, d = diffs[0]
                     oc.violations.append(core.Violation(key="c01:rows", what=f"{be}: {d}: {src}",
                                                         replay={"kind": "query", "backend": be, "query": src, "metadata": "universe", "event": evs[i], "difference": d}))
+                elif unsup and unsup.startswith("exec: opaque"):
+                    # accepted, and the emitted code uses an expression form the executor does not interpret: undecided
+                    oc.violations.append(core.Violation(key="c01:unparsed", what=f"{be}: {src}: accepted, and the emitted code cannot be executed by the model ({unsup})",
+                                                        no_failing_input=True,
+                                                        replay={"broken": f"optional form accepted with an expression outside the executable subset: {unsup}", "backend": be, "query": src,
+                                                                "searched": "the form could not be executed"}))
                 elif not unsup:
                     oc.traces_validated_against_impl += 1
         # ---------------- random queries over all documented operators ----------------
